@@ -231,8 +231,7 @@ def parse_task(engine):
         yv = ex.known(ex.get_field(L.simp(Val.oref(self_)), 'yacc'))
         sh.assume(ex, yv, sh.field_ty('SqParser', 'yacc'))
         env = Env()
-        env.vars['self'] = self_
-        env.vars['expr'] = expr
+        bind_positional(env, fi, [self_, expr])
         ctx = {'env': env, 'self': self_, 'expr': expr, 'lexer': lr, 'entry': ex.heap.copy()}
         ex.ctx = ctx
         ex.task.watch = {'expr': expr}
@@ -280,9 +279,27 @@ class ListNames(FnContract):
         seen = getattr(ex, 'tokens_seen', [])
         iters = [e for e in ex.events if e[0] == 'loop_iter']
         if iters:
-            ys = [y for y in ys if ex.events.index(y) > ex.events.index(iters[0])]
-            ex.prove('C18:list_names:one-token-read-per-step', ['C18'], len(toks) == 1)
+            # positions by enumeration (equal-looking events are different occurrences)
+            pos_iter = [k for k, e in enumerate(ex.events) if e[0] == 'loop_iter'][0]
+            ys_pos = [k for k, e in enumerate(ex.events) if e[0] == 'yield' and k > pos_iter]
+            tok_pos = [k for k, e in enumerate(ex.events) if e[0] == 'lex_token' and k > pos_iter]
+            ys = [ex.events[k] for k in ys_pos]
+            step_toks = [ex.events[k] for k in tok_pos]
+            ex.prove('C18:list_names:one-token-read-per-step', ['C18'], len(step_toks) == 1)
             name = ex.str_lit('NAME')
+            # the token this step deals with: the one read in the step (`while True: t = token()`), or - when the step
+            # ends by reading the next one (`t = token()` before the loop and at the end of the body) - the token the
+            # loop variable carried into the step (a token of this lexer by the generated variable invariant)
+            cur = None
+            reads_first = not getattr(ex, 'ln_primed', False)
+            if reads_first and seen:
+                cur = seen[-1]
+            elif not reads_first:
+                for nm, old, new in getattr(ex, 'loop_havocs', []):
+                    if isinstance(new, z3.ExprRef) and new.sort() == Val and ex.check_sat(z3.Not(z3.And(
+                            L.is_Obj(new), L.cls_of(Val.oref(new)) == ex.engine.shapes.cid('LexToken')))) == z3.unsat:
+                        cur = L.simp(Val.oref(new))
+            seen = [cur] if cur is not None else []
             if seen:
                 t = seen[-1]
                 is_name = ex.get_field(t, 'type') == name
@@ -291,7 +308,7 @@ class ListNames(FnContract):
                 for y in ys:
                     ex.prove('C18:list_names:yields-the-token-text', ['C18'], y[1] == ex.get_field(t, 'value'))
             else:
-                ex.prove('C18:list_names:nothing-yielded-without-a-token', ['C18'], len(ys) == 0)
+                ex.prove('C18:list_names:nothing-yielded-without-a-token', ['C18'], len(ys) == 0, soft=True)
 
 
 class ListNamesWrapper(FnContract):
@@ -325,8 +342,7 @@ def list_names_task(engine, key=None, wrapper_for=None):
         ex.assume(L.is_Str(expr))
         setup_cache(ex, self_)
         env = Env()
-        env.vars['self'] = self_
-        env.vars['expr'] = expr
+        bind_positional(env, fi, [self_, expr])
         ctx = {'env': env, 'self': self_, 'expr': expr, 'lexer': lr, 'entry': ex.heap.copy()}
         ex.ctx = ctx
         return ctx
@@ -344,7 +360,15 @@ def list_names_loop(ex, env, i):
     ex.lex_check_resets = False
     inputs = [e for e in ex.events if e[0] == 'lex_input']
     out = []
+    if not hasattr(ex, 'ln_primed'):
+        # first evaluation of the invariant on a path = loop entry: was a token read before the loop?
+        ex.ln_primed = any(e[0] == 'lex_token' for e in ex.events)
+    primed = ex.ln_primed
     for f in ('lineno', 'paren_count'):
+        if primed:
+            # the first token was read before the loop (`t = token(); while t is not None: ...; t = token()`): the
+            # resets were checked at that read
+            continue
         out.append(('resets[%s]-before-the-lexer-reads-it' % f, RESET_PROPS[f] + ['C18'],
                     z3.Implies(i == 0, ex.get_field(lr, f) == RESET_VALUE[f])))
     out.append(('text-fed-before-the-first-token-is-read', ['C18', 'C11'], len(inputs) == 1))
@@ -460,6 +484,8 @@ def eval_task(engine):
         ex.known(ast_names)
         ex.assume(z3.Or(L.is_None(ast_names), L.is_Dict(ast_names)))
         max_ops_ = z3.Const('arg_max_ops_evaluated', Val)
+        # a budget of at least one operation (with 0 or less the first Op.eval fails: covered by the Op.eval task, which is
+        # checked for every counter and budget value)
         ex.assume(z3.And(L.is_Int(max_ops_), Val.i(max_ops_) >= 1))
         ex.assume(CAP >= F.MAX_ARRAY)
         env = Env()
